@@ -21,7 +21,10 @@ def hexToNat? (s : String) : Option Nat :=
 /-- text: hex code points joined by '.', "-" for the empty text -/
 def parseText (s : String) : Option (List Int) :=
   if s == "-" then some []
-  else (s.splitOn ".").mapM fun h => (hexToNat? h).map Int.ofNat
+  else (s.splitOn ".").mapM fun h =>
+    -- "-xx": a byte outside any well-formed UTF-8 sequence = the negative atom -0xxx
+    if h.startsWith "-" then (hexToNat? (h.drop 1).toString).map fun n => -(Int.ofNat n)
+    else (hexToNat? h).map Int.ofNat
 
 def hexOf (n : Nat) : String := String.ofList (Nat.toDigits 16 n)
 
